@@ -1147,5 +1147,11 @@ void register_set_1()
     add_for<sim::Tracked, 3>("Tracked");
     add_for<sim::Tracked, 4>("Tracked");
     add_multi<sim::Tracked, 5, etl::less<sim::Tracked>, std::less<int>>("flat_multiset<Tracked,5,less>");
+    // over-aligned keys (alignas(32))
+    {
+        using K = sim::TrackedOA;
+        add_set<etl::static_set<K, 3, etl::less<K>>, K, 3, std::less<int>, SK::static_set, false>("static_set<TrackedOA,3,less>");
+        add_set<etl::flat_set<K, etl::static_vector<K, 3>, etl::greater<K>>, K, 3, std::greater<int>, SK::flat_set, false>("flat_set<TrackedOA,3,greater>");
+    }
 }
 #endif
